@@ -66,6 +66,7 @@ def parse_inputs(rng):
         "mock-noise": mock_input("CIRCUIT_2", "mock-noise", noise=0.5, seed=7, num_per_decade=3),
         "mock-all-keys": mock_input("CIRCUIT_4_INVALID", "mock-all-keys", noise=0.25, num_per_decade=2, log_max_f=3.0, log_min_f=-1.0, seed=11, drift=2.0),
         "mock-wildcard": mock_input("CIRCUIT_7*", "mock-wildcard", num_per_decade=1),
+        "mock-seed-zero": mock_input("CIRCUIT_1", "mock-seed-zero", noise=5.0, seed=0, num_per_decade=2),
         "mock-cdc": mock_input("R{R=10}(R{R=20}C{C=1e-4:cdl})", "mock-cdc", log_max_f=3.0, log_min_f=0.0, num_per_decade=2),
     }
     for name, m in mocks.items():
